@@ -173,6 +173,10 @@ def observe(ctx: fw.Ctx, hists, count_case: bool = True):
                         or isinstance(ep.tree_get(layers[n - depth], names), (tuple, list))):
                     continue  # missing key (a name the layer only inherits has no binding to remove)
                 if depth <= n:
+                    lp_all = ep.let_layer_parents(r.before_text)
+                    lpar = lp_all[len(outer) + n - depth] if len(lp_all) == len(outer) + n else set()
+                    if tuple(names) in lpar:
+                        continue  # root of a dotted family inside the layer: overwrite / removal as a whole is refused (documented)
                     tgt_layer = layers[n - depth]
                     if any(not isinstance(ep.tree_get(tgt_layer, names[:k]), (dict, type(None)))
                            for k in range(1, len(names))):
